@@ -45,22 +45,41 @@ RULE = ("cases = routing-tool output tables (ip-route and netstat -rn, Linux and
 MANIFEST = dict(
     level_text=("Machine-checked Lean 4 theorems over a statement-by-statement model of server._ipmatch/_maskbits/_shl/"
                 "_route_iproute/_route_netstat/_list_routes/list_routes, the ROUTES packet builder on Mux.send, client "
-                "onroutes and the ROUTES section of FirewallClient.start: the mask arithmetic yields the canonical "
-                "network address for every address and width (C17_mask), _maskbits is the prefix length of every "
-                "contiguous netmask (C17_maskbits), every destination of the ip-route and netstat grammars is "
-                "advertised as (canonical network, prefix length) with default/0.x/127.x omitted (C17_iproute_line, "
-                "C17_netstat_line), no input line makes the loop raise (C17_skip_junk_full), a table whose message fits "
-                "one frame is delivered and every advertised network is written into the plan before the firewall is "
-                "started, exactly once (C17_delivery_partial, C17_client_adds); the unbounded-size statement is "
-                "refuted (C17_delivery_full_false). Tied to the code on every run by a differential run of the real "
-                "server.main / client._main / FirewallClient.start on generated tables plus an ipaddress oracle."),
+                "onroutes and the ROUTES section of FirewallClient.start. Proved for all inputs: the mask arithmetic yields "
+                "the canonical network for every address and width (C17_mask); _maskbits is the prefix length of all 33 "
+                "contiguous netmasks (C17_maskbits); every destination of the ip-route and netstat (Linux and BSD) grammars, "
+                "with anything after it (gateway, device, metric), is advertised as (canonical network, prefix length), "
+                "default/0.x/127.x omitted (C17_iproute_line, C17_netstat_line, C17_netstat_bsd_line); every ip-route line whose "
+                "first word has no '/' (default, blackhole/unreachable/prohibit lines, titles, bare hosts) carries nothing "
+                "(C17_iproute_no_slash_omitted, C17_iproute_default_omitted, C17_iproute_host_gap); no byte line makes the loop "
+                "raise (C17_skip_junk_full, C17_list_routes_total); list_routes is the in-order list of per-line contributions, "
+                "so skipped lines never change what the other lines yield, for every interleaving (C17_list_routes_linewise, "
+                "C17_junk_transparent, C17_junk_line_inserted, C17_uninterpretable_contributes_nothing); END TO END "
+                "(C17_end_to_end_iproute, C17_end_to_end_netstat): for every table built from the grammars' line forms in any "
+                "number and order whose advertisement fits one frame, list_routes yields exactly the specification's networks, "
+                "the server queues one ROUTES frame that decodes back to the same message, and the client adds exactly those "
+                "networks when the user asked for an IPv4 listener and none otherwise, clears got_routes and starts the "
+                "firewall once with the plan (configured includes, these networks as 2,<w>,0,<ip>,0,0, excludes, then "
+                "NSLIST..GO); for arbitrary messages the client starts the firewall exactly once and writes every accepted "
+                "network before what follows (C17_client_adds); the message is queued iff it fits 65535 bytes (C17_delivery_iff) "
+                "and the unbounded statement is refuted (C17_delivery_full_false, C17_end_to_end_size_false). Tied to the code "
+                "on every run by a differential run of the real server.main (verbosity 0..2, routing tool in memory and as a "
+                "real child process) / client._main with real MultiListener objects / FirewallClient.start on generated tables, "
+                "plus an ipaddress oracle."),
     level_note=("Trusted: Lean kernel; axioms propext/Classical.choice/Quot.sound only; the correspondence harness; the "
                 "models of CPython int()/str.split/bytes.strip/re.match on the one anchored expression and glibc "
-                "inet_aton (each with its own correspondence stream); the two tool grammars in Spec/Routes.lean. "
-                "Windows `route PRINT` parsing is outside. Line skipping holds for the repaired code "
-                "(fix commit 2f593f0); tables whose ROUTES message exceeds 65535 bytes are a recorded "
-                "known finding."),
-    technique="Lean 4 proof (bit-level lemmas, grammar-to-tuple theorems) + differential correspondence with the real server/client code + ipaddress oracle",
+                "inet_aton/inet_ntoa (each with its own correspondence stream); the tool grammars and table line forms of "
+                "Spec/Routes.lean (ip route prints the IPv4 table only; an IPv6 row starting with a digit, or a netstat row "
+                "with fewer than three columns, is outside the table grammar and covered only by the all-inputs theorems "
+                "C17_skip_junk_full / C17_list_routes_linewise and by testing). Not proved, decided by the differential run "
+                "and oracle only: which() tool selection and argv, Popen/pipe behaviour (a tool larger than the pipe buffer "
+                "is drained), independence of server verbosity, MultiListener.bind leaving v4/v6 set iff asked for, the "
+                "transport of the frame between the two Mux objects beyond encode/decode (C07). The 65535-byte bound is a "
+                "hypothesis of the delivery theorems: tables whose ROUTES message exceeds one frame are a recorded known "
+                "finding; bare ip-route host routes are dropped for the whole grammar (C17_iproute_host_gap), a recorded "
+                "known finding on the reading of 'every route printed'. The BSD flags column must not be the word "
+                "'default' (hypothesis of C17_netstat_bsd_line). Windows `route PRINT` parsing is outside."),
+    technique="Lean 4 proof (bit-level lemmas, grammar-to-tuple theorems, line-wise induction, end-to-end composition) + differential correspondence with the real server/client code + ipaddress oracle",
 )
 DRIVER_TARGETS = ['SshuttleModel.Code.Routes']
 ASSUMPTIONS = [
